@@ -2,7 +2,8 @@
 
 All contracts run in float mode R (machine floats treated as mathematical reals) on the numpy model of
 pyvc/numpy_model.py (float arrays with identity: `a *= s` mutates, `a * s` / np.array(x) make new arrays; numpy scalars;
-np.dot / np.mean / np.linalg.norm / np.sqrt; scipy's Rotation only for the two half turns the aligner uses).
+np.dot / np.mean / np.linalg.norm / np.sqrt / np.ravel / np.concatenate; scipy's Rotation only for the two half turns the
+aligner uses - where a contract needs the matrix of a symbolic rotation vector, Rotation is replaced by a stub).
 
 Covered
   * Pose.scale, LighthouseSystemScaler._scale_system, scale_fixed_point, scale_diagonals: one factor for every base
@@ -10,11 +11,19 @@ Covered
     the factor makes the reference distance (|factor * actual| == |expected|) resp. the estimated sensor diagonal
     (factor * estimated == expected) correct; FRAME: neither input container, nor any input pose, nor the numpy arrays
     inside the input poses, nor `expected` / `actual` are modified (this is what fails for an in-place scale through
-    the shallow copies).
+    the shallow copies).  Histories: the same system scaled twice (independent answers); the answer of one scaling
+    scaled again (factors multiply, the intermediate system is not modified although its poses share their rotation
+    arrays with the input); the reference pose being one of the poses that are scaled (it ends up at the expected
+    distance).  scale_diagonals also with the REAL _calculate_mean_diagonal (only the ray geometry stubbed): the
+    diagonals are measured in the system as it was given, each base-station pose looked up by the id the sample reports.
   * LighthouseSystemScaler._calculate_mean_diagonal: the estimate is the mean over all samples and base stations of
     the two sensor diagonals (sensors 0-3 and 1-2) seen by the base station of that id from the Crazyflie pose of
-    that sample (calc_intersection_distance under a stub).
-  * calc_intersection_distance / calc_intersection_point: the ray/deck intersection is homogeneous of degree one in
+    that sample (calc_intersection_distance under a stub); also for samples that see different subsets of the base
+    stations, in another order than the system's dictionary, or nothing at all (`by-id.*`); inputs not modified.
+  * calc_intersection_point: the point returned IS the intersection of the ray (through the base-station position, along
+    bs.R . cart) with the deck plane (through the Crazyflie position, normal cf.R . ez); calc_intersection_distance is the
+    distance between the intersections of the two rays given (real body, nothing stubbed), symmetric in the rays.
+  * calc_intersection_point: the ray/deck intersection is homogeneous of degree one in
     the translations (scaling base station and Crazyflie positions by s scales the intersection point by s), which is
     what makes "factor = expected / estimated" the factor that corrects the diagonal.
   * LhDeck4SensorPositions: diagonal_distance is the distance between sensors 0-3 and between sensors 1-2 of
@@ -22,7 +31,19 @@ Covered
   * LighthouseSystemAligner.align (with _find_transformation under a stub returning an arbitrary pose): ONE
     transformation - the one that is returned - is applied to every base station: out.R == T.R . in.R and
     out.t == T.R . in.t + T.t for every id, same id set, inputs not modified, _find_transformation consulted once
-    with the caller's samples.
+    with the caller's samples.  Histories / second uses: two alignments in a row (nothing is remembered from the first,
+    the first answer is not touched); samples given as numpy arrays (the caller's arrays are not written).
+  * LighthouseSystemAligner._calc_residual (what "exact" means for the solver): the sum of squares of the residual is
+    |T(origin)|^2 + sum_x (T(x)_y^2 + T(x)_z^2) + sum_p T(p)_z^2 for the pose T of the parameter vector - zero iff T
+    maps the origin sample to (0,0,0), the x-axis samples onto the X axis and the plane samples into Z = 0.  Stated on
+    the objective, not on the order of the residual entries.  Repeated evaluation on array samples writes nothing.
+  * LighthouseSystemAligner._find_transformation / _Pose_from_params / Pose.from_rot_vec (scipy.optimize.least_squares
+    under a stub that evaluates the function it is given - with the arguments it is given - at an arbitrary answer x and
+    returns x): the residual the solver sees for its answer is the alignment error of the RETURNED pose on the CALLER's
+    samples, and the search starts from the zero parameter vector.  Hence: solver converged (residual 0) => the raw
+    transformation is exact; with _de_flip_transformation.* (S . raw keeps origin / X axis / plane) and
+    align.one_transformation.*: align is exact.  What remains outside is only the convergence of the external solver
+    (sampled: align.end-to-end.sampled).
   * LighthouseSystemAligner._de_flip_transformation: the returned transformation is S . raw with S a diagonal sign
     matrix of determinant one (identity / half turn about Z / half turn about X / both) applied AFTER the raw
     transformation (in the aligned frame), chosen so that the mean x-axis sample lands at X >= 0 and the first base
@@ -34,26 +55,40 @@ Covered
     a.R^T (T.R^T T.R - I) b.R - polynomial identities; both vanish when T.R is orthonormal.  Together with the two
     aligner contracts: if the least-squares answer is a proper rigid transformation, distances and relative
     orientations between base stations are preserved by `align`.
+  * Pose.from_rot_vec / Pose(): rotation = scipy's matrix for that rotation vector (stub), translation as given,
+    defaults identity / origin; a pose owns its arrays (scaling one pose changes neither the constructor arguments nor
+    the defaults of a pose created later).
 
 Not covered (and why)
-  * that _find_transformation (scipy.optimize.least_squares from a zero start, ten evaluations) returns a proper rigid
-    transformation with zero residual for misalignments below 30 degrees: numerical convergence of an external
-    optimiser, not a contract (DESIGN.md: N/A);
-  * that the matrix of that answer is orthonormal with determinant one: contract of scipy's Rotation.as_matrix
-    (external); the implication "orthonormal => distance preserved" as ONE solver goal is not decided by z3 (cvc5 needs
-    25 s, above the budget), which is why rigidity is stated through the exact defect term (T.R^T T.R - I) instead;
-  * calc_intersection_point being the true ray/plane intersection (geometry of LighthouseBsVector.cart, trigonometric)
-    - only its homogeneity is proved;
+  * that scipy.optimize.least_squares (from the zero start, at most 100 evaluations) converges to residual zero for
+    misalignments below 30 degrees: numerical convergence of an external optimiser, not a contract (DESIGN.md: N/A);
+    sampled natively by align.end-to-end.sampled (BOUNDED ONLY, never counted as proved);
+  * that the matrix scipy's Rotation.from_rotvec(v).as_matrix() returns is orthonormal with determinant one: contract of
+    scipy (external); the implication "orthonormal => distance preserved" as ONE solver goal is not decided by z3 (cvc5
+    needs 25 s, above the budget), which is why rigidity is stated through the exact defect term (T.R^T T.R - I) instead;
+  * LighthouseBsVector.cart (trigonometry of the sweep angles, another file) - the ray direction is an arbitrary vector here;
+  * scale_diagonals with nothing stubbed ("the diagonals measured again in the scaled system have the expected mean"): follows
+    from calc_intersection_point.homogeneous + calc_intersection_distance + _calculate_mean_diagonal.* + scale_diagonals.*, but
+    as solver goals about one run (square roots of rational functions) z3 and cvc5 did not decide it within twenty minutes;
   * float rounding (mode R), numpy broadcasting beyond scalar/equal shapes, integer arrays, non-finite values, a zero
     reference distance / zero estimated diagonal / a ray parallel to the deck (numpy yields inf/nan with a
     RuntimeWarning, no exception; excluded by pre-conditions);
-  * empty sample lists / an empty base-station dictionary for the aligner (the property quantifies over one or more).
+  * empty sample lists / an empty base-station dictionary for the aligner (the property quantifies over one or more);
+  * Pose.from_quat / rot_vec / rot_quat / matrix_vec / inv_rotate_translate / inv_rotate_translate_pose: not used by the
+    aligner or the scaler (they serve the geometry solver and the initial estimator); the first three are thin wrappers
+    around scipy conversions.
+  * the numbers of base stations / samples are enumerated (quick: up to 3 base stations, 3 samples per kind; thorough: up
+    to 16 base stations, 10 Crazyflie poses, 8 x-axis samples): the code iterates dictionaries / lists with comprehensions
+    and map(), for which the engine has no invariant rule (loop invariants exist for `while` / `for .. in range`).
 
 Stubs (c.patch, the same stub object runs natively): _find_transformation (returns an arbitrary pose),
-_calculate_mean_diagonal (returns an arbitrary non-zero numpy scalar), calc_intersection_distance (returns arbitrary
-numpy scalars) - each only in the contracts of their callers; the latter two have their own contracts below.
-Base-station ids are the concrete keys 0, 3, 1 (the code only copies them).  Aligner inputs are bounded by 10 in
-absolute value (metres / matrix entries) so that native replays stay inside the 1e-9 tolerance of those ensures.
+_Pose_from_params (returns an arbitrary pose), _calculate_mean_diagonal (returns an arbitrary non-zero numpy scalar),
+calc_intersection_distance (returns arbitrary numpy scalars), scipy.optimize.least_squares (evaluates the residual function at
+an arbitrary answer and returns it), scipy Rotation (arbitrary matrix; for _find_transformation an arbitrary injective function
+of the rotation vector) - each only in the contracts of their callers; the repository functions among them have their own
+contracts below.
+Base-station ids are concrete keys (0, 3, 1, 7, 2, 15 ...: the code only copies / looks them up).  Aligner inputs are bounded
+by 10 in absolute value (metres / matrix entries) so that native replays stay inside the 1e-9 tolerance of those ensures.
 """
 from pyvc.api import contract
 
@@ -64,7 +99,7 @@ POSE = LT + ':Pose'
 SCALER = SC + ':LighthouseSystemScaler'
 ALIGNER = AL + ':LighthouseSystemAligner'
 
-BS_IDS = (0, 3, 1)          # base-station ids are opaque dictionary keys for the code under contract
+BS_IDS = (0, 3, 1, 7, 2, 15, 4, 9, 5, 12, 6, 8, 10, 11, 13, 14)     # base-station ids are opaque dictionary keys for the code under contract
 
 CL_SCALE = ('Scaling multiplies every translation by the single factor that makes the reference distance or the sensor '
             'diagonal correct and leaves rotations unchanged; it does not modify its inputs')
@@ -89,6 +124,12 @@ def helpers(c):
                               'for i in range(3) for j in range(i, 3))')
     c.snapshot('det', 'lambda M: M[0][0] * (M[1][1] * M[2][2] - M[1][2] * M[2][1]) - M[0][1] * (M[1][0] * M[2][2] - M[1][2] * M[2][0]) '
                       '+ M[0][2] * (M[1][0] * M[2][1] - M[1][1] * M[2][0])')
+
+
+def module_names(c, ref):
+    """the global names of a repository module (both back ends)"""
+    m = c.func(ref)
+    return set(m.attrs) if hasattr(m, 'attrs') else set(vars(m))
 
 
 def mat(c, name):
@@ -155,7 +196,9 @@ def check_scaled(c, n_bs, n_cf, factor):
 
 
 SIZES = ((1, 0), (1, 1), (2, 1), (2, 2), (3, 2))
-BOUND = '%d base station(s) and %d Crazyflie pose(s) (sizes (1,0) (1,1) (2,1) (2,2) (3,2) enumerated); matrices and vectors symbolic'
+SIZES_THOROUGH = ((4, 4), (8, 5), (16, 10))        # thorough tier only (16 = the most base stations a lighthouse system has)
+BOUND = ('%d base station(s) and %d Crazyflie pose(s) (sizes (1,0) (1,1) (2,1) (2,2) (3,2) enumerated, (4,4) (8,5) (16,10) in the thorough '
+         'tier); matrices and vectors symbolic')
 
 
 # ------------------------------------------------------------------------- Pose.scale
@@ -178,11 +221,49 @@ def pose_scale(c):
     c.ensure('constructor-arguments-not-aliased', 'p.translation is not p_t and p.rot_matrix is not p_R')
 
 
+@contract('C16', 'Pose.from_rot_vec', [POSE + '.from_rot_vec', POSE + '.__init__', POSE + '.scale'], float_mode='R',
+          clause='the transformation built from a rotation vector and a translation (what the aligner builds from the solver\'s '
+                 'parameters and what the de-flip half turns are): its rotation is the matrix scipy gives for THAT rotation vector, its '
+                 'translation is THAT translation; it owns its arrays (scaling it writes neither the arguments nor a later pose); '
+                 'scipy Rotation.from_rotvec under a stub returning an arbitrary matrix')
+def pose_from_rot_vec(c):
+    helpers(c)
+    c.let('M', mat(c, 'M'))
+    c.floats('rv', 3, kind='tuple'), c.floats('tv', 3, kind='tuple')
+    c.float('s')
+    c.snapshot('M_arr', 'LT.np.array(M)')
+    c.snapshot('rv_arr', 'LT.np.array(rv)')
+    c.snapshot('tv_arr', 'LT.np.array(tv)')
+    rotation = c.ext('rotation', returns={'as_matrix': c.get('M_arr')})
+    c.patch(LT + ':Rotation', c.ext('Rotation', returns={'from_rotvec': lambda *_a: rotation}))
+    c.call((c.cls(POSE), 'from_rot_vec'), R_vec=c.get('rv_arr'), t_vec=c.get('tv_arr'))
+    c.ensure('no-exception', 'raised is None and typename(result) == "Pose"')
+    c.ensure('rotation-of-that-rotation-vector', 'len(sent("Rotation.from_rotvec")) == 1 and sent("Rotation.from_rotvec")[0][1][0] is rv_arr '
+                                                 'and result.rot_matrix.tolist() == [list(r) for r in M]')
+    c.ensure('translation-given', 'result.translation.tolist() == list(tv)')
+    c.let('p', c.get('result'))
+    c.call((c.get('p'), 'scale'), c.get('s'))
+    c.ensure('scaled', 'raised is None and p.translation.tolist() == [s * x for x in tv] and p.rot_matrix.tolist() == [list(r) for r in M]')
+    c.ensure('arguments-not-written', 'tv_arr.tolist() == list(tv) and rv_arr.tolist() == list(rv) and M_arr.tolist() == [list(r) for r in M]')
+    c.call((c.cls(POSE), 'from_rot_vec'), R_vec=c.get('rv_arr'))
+    c.ensure('default-translation-is-the-origin-also-after-another-pose-was-scaled',
+             'raised is None and result.translation.tolist() == [0.0, 0.0, 0.0] and result.rot_matrix.tolist() == [list(r) for r in M]')
+    c.call(c.cls(POSE))
+    c.ensure('default-pose-is-the-identity', 'raised is None and result.translation.tolist() == [0.0, 0.0, 0.0] and '
+                                             'result.rot_matrix.tolist() == [[1.0, 0.0, 0.0], [0.0, 1.0, 0.0], [0.0, 0.0, 1.0]]')
+    c.let('q', c.get('result'))
+    c.call((c.get('q'), 'scale'), c.get('s'))
+    c.call(c.cls(POSE))
+    c.ensure('default-pose-is-the-identity-after-a-default-pose-was-scaled',
+             'raised is None and result.translation.tolist() == [0.0, 0.0, 0.0] and '
+             'result.rot_matrix.tolist() == [[1.0, 0.0, 0.0], [0.0, 1.0, 0.0], [0.0, 0.0, 1.0]]')
+
+
 # ------------------------------------------------------------------------- _scale_system
 
-def _scale_system(n_bs, n_cf):
+def _scale_system(n_bs, n_cf, **opts):
     @contract('C16', '_scale_system.bs%d.cf%d' % (n_bs, n_cf), [SCALER + '._scale_system', POSE + '.scale'], float_mode='R',
-              clause=CL_SCALE + ' [the given factor is applied to every pose and returned]', bounded=BOUND % (n_bs, n_cf))
+              clause=CL_SCALE + ' [the given factor is applied to every pose and returned]', bounded=BOUND % (n_bs, n_cf), **opts)
     def k(c):
         helpers(c)
         bs_poses, cf_poses = system(c, n_bs, n_cf)
@@ -199,6 +280,8 @@ def _scale_system(n_bs, n_cf):
 
 for _s in SIZES:
     _scale_system(*_s)
+for _s in SIZES_THOROUGH:
+    _scale_system(*_s, thorough_only=True)
 
 
 @contract('C16', '_scale_system.twice', [SCALER + '._scale_system', POSE + '.scale'], float_mode='R',
@@ -218,14 +301,43 @@ def scale_twice(c):
                                          'first[1][0].translation.tolist() == [f1 * x for x in cf0_t]')
 
 
+@contract('C16', '_scale_system.chained', [SCALER + '._scale_system', POSE + '.scale'], float_mode='R',
+          clause=CL_SCALE + ' [history: the answer of one scaling is scaled again (its poses share their rotation arrays with the '
+                            'first input): the factors multiply, the intermediate system is not modified]',
+          bounded='two base stations and one Crazyflie pose, the second call on the results of the first')
+def scale_chained(c):
+    helpers(c)
+    bs_poses, cf_poses = system(c, 2, 1)
+    c.float('f1'), c.float('f2')
+    remember(c, ['bs0', 'bs1', 'cf0'])
+    c.call((c.cls(SCALER), '_scale_system'), bs_poses, cf_poses, c.get('f1'))
+    c.ensure('no-exception-first', 'raised is None')
+    c.let('first', c.get('result'))
+    c.snapshot('m0', 'first[0][IDS[0]]'), c.snapshot('m1', 'first[0][IDS[1]]'), c.snapshot('m2', 'first[1][0]')
+    c.snapshot('mid_bs_items', 'list(first[0].items())')
+    c.snapshot('mid_cf_items', 'list(first[1])')
+    remember(c, ['m0', 'm1', 'm2'])
+    c.call((c.cls(SCALER), '_scale_system'), c.get('first')[0], c.get('first')[1], c.get('f2'))
+    c.ensure('no-exception', 'raised is None and result[2] == f2')
+    c.ensure('factors-multiply', 'result[0][IDS[0]].translation.tolist() == [f2 * (f1 * x) for x in bs0_t] and '
+                                 'result[0][IDS[1]].translation.tolist() == [f2 * (f1 * x) for x in bs1_t] and '
+                                 'result[1][0].translation.tolist() == [f2 * (f1 * x) for x in cf0_t]')
+    c.ensure('rotations-unchanged', 'result[0][IDS[0]].rot_matrix.tolist() == [list(r) for r in bs0_R] and '
+                                    'result[0][IDS[1]].rot_matrix.tolist() == [list(r) for r in bs1_R] and '
+                                    'result[1][0].rot_matrix.tolist() == [list(r) for r in cf0_R]')
+    c.ensure('intermediate-containers-not-modified', 'list(first[0].items()) == mid_bs_items and list(first[1]) == mid_cf_items')
+    check_pose_frame(c, ['m0', 'm1', 'm2'])
+    check_system_frame(c, 2, 1)
+
+
 # ------------------------------------------------------------------------- scale_fixed_point
 
-def _fixed_point(n_bs, n_cf, kind):
+def _fixed_point(n_bs, n_cf, kind, **opts):
     @contract('C16', 'scale_fixed_point.bs%d.cf%d.%s' % (n_bs, n_cf, kind),
               [SCALER + '.scale_fixed_point', SCALER + '._scale_system', POSE + '.scale'], float_mode='R',
               clause=CL_SCALE + ' [fixed point: |factor * actual position| == |expected position|, factor >= 0; reference '
                                 'position given as %s]' % kind,
-              bounded=BOUND % (n_bs, n_cf))
+              bounded=BOUND % (n_bs, n_cf), **opts)
     def k(c):
         helpers(c)
         bs_poses, cf_poses = system(c, n_bs, n_cf)
@@ -255,16 +367,40 @@ for _s in SIZES:
     _fixed_point(_s[0], _s[1], 'tuple')
 _fixed_point(2, 1, 'list')
 _fixed_point(2, 1, 'ndarray')
+for _s in SIZES_THOROUGH:
+    _fixed_point(_s[0], _s[1], 'tuple', thorough_only=True)
+_fixed_point(8, 5, 'ndarray', thorough_only=True)
+
+
+@contract('C16', 'scale_fixed_point.reference-is-a-sample',
+          [SCALER + '.scale_fixed_point', SCALER + '._scale_system', POSE + '.scale'], float_mode='R',
+          clause=CL_SCALE + ' [fixed point, the usual call: the reference pose is one of the Crazyflie poses being scaled (the same '
+                            'object): in the answer that pose is at the expected distance from the origin, and the reference pose '
+                            'handed in still is where it was]',
+          bounded='two base stations and two Crazyflie poses, the second one is the reference')
+def fixed_point_reference_is_a_sample(c):
+    helpers(c)
+    bs_poses, cf_poses = system(c, 2, 2)
+    c.floats('expected', 3, kind='tuple')
+    c.require('sumsq(cf1_t) > 0')
+    names = ['bs0', 'bs1', 'cf0', 'cf1']
+    remember(c, names)
+    c.call((c.cls(SCALER), 'scale_fixed_point'), bs_poses, cf_poses, c.get('expected'), c.get('cf1'))
+    c.ensure('no-exception', 'raised is None')
+    c.snapshot('f', 'result[2]')
+    c.ensure('reference-sample-at-the-expected-distance', 'result[1][1] is not cf1 and abs(sumsq(result[1][1].translation.tolist()) - sumsq(expected)) <= 1e-9 * (1 + sumsq(expected))')
+    check_scaled(c, 2, 2, 'f')
+    check_system_frame(c, 2, 2)
 
 
 # ------------------------------------------------------------------------- scale_diagonals
 
-def _diagonals(n_bs, n_cf):
+def _diagonals(n_bs, n_cf, **opts):
     @contract('C16', 'scale_diagonals.bs%d.cf%d' % (n_bs, n_cf),
               [SCALER + '.scale_diagonals', SCALER + '._scale_system', POSE + '.scale'], float_mode='R',
               clause=CL_SCALE + ' [sensor diagonal: factor * estimated mean diagonal == expected diagonal; the estimate is '
                                 'taken once, from the system being scaled (own contract: _calculate_mean_diagonal.*)]',
-              bounded=BOUND % (n_bs, n_cf))
+              bounded=BOUND % (n_bs, n_cf), **opts)
     def k(c):
         helpers(c)
         bs_poses, cf_poses = system(c, n_bs, n_cf)
@@ -290,50 +426,130 @@ def _diagonals(n_bs, n_cf):
 
 for _s in SIZES:
     _diagonals(*_s)
+for _s in SIZES_THOROUGH:
+    _diagonals(*_s, thorough_only=True)
+
+
+@contract('C16', 'scale_diagonals.estimate-from-the-unscaled-system',
+          [SCALER + '.scale_diagonals', SCALER + '._calculate_mean_diagonal', SCALER + '._scale_system', POSE + '.scale'], float_mode='R',
+          clause=CL_SCALE + ' [sensor diagonal, with the real estimate: factor * (mean of the diagonals measured in the system as it was '
+                            'GIVEN, base-station pose looked up by the id the sample reports) == expected diagonal; '
+                            'calc_intersection_distance under a stub returning arbitrary distances]',
+          bounded='three base stations, two samples seeing base stations (1,) and (3, 0)')
+def diagonals_real_estimate(c):
+    helpers(c)
+    vis = [(2,), (1, 0)]
+    bs_poses, cf_poses = system(c, 3, 2)
+    d = c.floats('d', 6, kind='tuple')
+    c.let('dists', tuple(d))
+    c.float('expected_diagonal')
+    c.require('dists[0] + dists[1] + dists[2] + dists[3] + dists[4] + dists[5] != 0')
+    vec = [[tuple(c.ext('v_%d_%d_%d' % (s, b, j)) for j in range(4)) for b in vis[s]] for s in range(2)]
+    samples = c.list([c.new(LT + ':LhCfPoseSample', 0.0, c.dict([(BS_IDS[b], vec[s][j]) for j, b in enumerate(vis[s])])) for s in range(2)])
+    c.patch(SCALER + '.calc_intersection_distance',
+            c.ext('dist', returns={'()': seq_returns([c.snapshot('_d', 'LT.np.float64(dists[%d])' % i) for i in range(6)])}))
+    names = ['bs%d' % i for i in range(3)] + ['cf%d' % i for i in range(2)]
+    remember(c, names)
+    c.call((c.cls(SCALER), 'scale_diagonals'), bs_poses, cf_poses, samples, c.get('expected_diagonal'))
+    c.ensure('no-exception', 'raised is None')
+    c.snapshot('measured', '[(e[1][2], e[1][3]) for e in sent("dist")]')
+    c.ensure('diagonals-measured-in-the-given-system',
+             'len(measured) == 6 and all(measured[i][0] is BS[b] and measured[i][1] is CF[s] for i, b, s in '
+             '((0, 2, 0), (1, 2, 0), (2, 1, 1), (3, 1, 1), (4, 0, 1), (5, 0, 1)))')
+    c.snapshot('f', 'result[2]')
+    c.ensure('factor-makes-mean-diagonal-correct', 'abs(f * (dists[0] + dists[1] + dists[2] + dists[3] + dists[4] + dists[5]) - 6 * expected_diagonal) <= 1e-9 * (1 + abs(expected_diagonal))')
+    check_scaled(c, 3, 2, 'f')
+    check_system_frame(c, 3, 2)
 
 
 # ------------------------------------------------------------------------- _calculate_mean_diagonal
 
 def seq_returns(values):
-    it = iter(values)
-    return lambda *_a: next(it)
+    """stub result: the values in turn; a call too many (which the contracts report by the number of calls) gets the last one again"""
+    values = list(values)
+    st = {'i': 0}
+
+    def nxt(*_a):
+        v = values[min(st['i'], len(values) - 1)]
+        st['i'] += 1
+        return v
+    return nxt
 
 
-def _mean_diagonal(n_cf, n_bs):
-    n = 2 * n_cf * n_bs
+def _mean_diagonal(name, n_bs, vis, **opts):
+    """vis: for every sample the tuple of base stations it sees (indexes into BS_IDS / BS, in the order of the sample's
+    dictionary); the system has n_bs base stations and one Crazyflie pose per sample"""
+    n_cf = len(vis)
+    n = 2 * sum(len(v) for v in vis)
 
-    @contract('C16', '_calculate_mean_diagonal.cf%d.bs%d' % (n_cf, n_bs), [SCALER + '._calculate_mean_diagonal'], float_mode='R',
+    @contract('C16', '_calculate_mean_diagonal.' + name, [SCALER + '._calculate_mean_diagonal'], float_mode='R',
               clause='the estimated sensor diagonal is the mean, over all samples and the base stations seen in them, of the '
                      'distances between the deck intersections of the rays to sensors 0 and 3 and to sensors 1 and 2, for '
                      'the base-station pose of that id and the Crazyflie pose of that sample',
-              bounded='%d sample(s) each seeing %d base station(s)' % (n_cf, n_bs))
+              bounded='%d base station(s), %d sample(s) seeing the base stations %s' % (
+                  n_bs, n_cf, ' / '.join(str(tuple(BS_IDS[b] for b in v)) for v in vis)), **opts)
     def k(c):
         helpers(c)
         bs_poses, cf_poses = system(c, n_bs, n_cf)
         d = c.floats('d', n, kind='tuple')
         c.let('dists', tuple(d))
-        vec = [[tuple(c.ext('v_%d_%d_%d' % (s, b, j)) for j in range(4)) for b in range(n_bs)] for s in range(n_cf)]
+        vec = [[tuple(c.ext('v_%d_%d_%d' % (s, b, j)) for j in range(4)) for b in vis[s]] for s in range(n_cf)]
         c.let('VEC', tuple(tuple(v) for v in vec))
-        samples = [c.new(LT + ':LhCfPoseSample', 0.0, c.dict([(BS_IDS[b], vec[s][b]) for b in range(n_bs)])) for s in range(n_cf)]
+        samples = [c.new(LT + ':LhCfPoseSample', 0.0, c.dict([(BS_IDS[b], vec[s][j]) for j, b in enumerate(vis[s])])) for s in range(n_cf)]
         c.patch(SCALER + '.calc_intersection_distance',
                 c.ext('dist', returns={'()': seq_returns([c.snapshot('_d', 'LT.np.float64(dists[%d])' % i) for i in range(n)])}))
+        names = ['bs%d' % i for i in range(n_bs)] + ['cf%d' % i for i in range(n_cf)]
+        remember(c, names)
         c.call((c.cls(SCALER), '_calculate_mean_diagonal'), bs_poses, cf_poses, c.list(samples))
         c.ensure('no-exception', 'raised is None')
         c.ensure('one-distance-per-diagonal', 'len(trace) == %d and all(e[0] == "dist" and len(e[2]) == 0 for e in trace)' % n)
         i = 0
         for s in range(n_cf):
-            for b in range(n_bs):
+            for j, b in enumerate(vis[s]):
                 for (p, q) in ((0, 3), (1, 2)):
                     c.ensure('call%d-sample%d-bs%d-sensors-%d-%d' % (i, s, b, p, q),
                              'len(trace[%d][1]) == 4 and trace[%d][1][0] is VEC[%d][%d][%d] and trace[%d][1][1] is VEC[%d][%d][%d] '
-                             'and trace[%d][1][2] is BS[%d] and trace[%d][1][3] is CF[%d]' % (i, i, s, b, p, i, s, b, q, i, b, i, s))
+                             'and trace[%d][1][2] is BS[%d] and trace[%d][1][3] is CF[%d]' % (i, i, s, j, p, i, s, j, q, i, b, i, s))
                     i += 1
         c.ensure('mean-of-the-distances', 'result * %d == %s' % (n, ' + '.join('dists[%d]' % j for j in range(n))))
+        check_system_frame(c, n_bs, n_cf)
     return k
 
 
-for _s in ((1, 1), (1, 2), (2, 1), (2, 2)):
-    _mean_diagonal(*_s)
+for _s in ((1, 1), (1, 2), (2, 1), (2, 2)):           # (samples, base stations): every sample sees every base station, in dictionary order
+    _mean_diagonal('cf%d.bs%d' % _s, _s[1], [tuple(range(_s[1]))] * _s[0])
+# the pose is looked up by the ID a sample reports: samples seeing different subsets, in another order than the system's dictionary,
+# and a sample that sees nothing (contributes nothing)
+_mean_diagonal('by-id.subset', 3, [(2,), (1, 0)])
+_mean_diagonal('by-id.reversed', 3, [(2, 1, 0), (), (1,)])
+_mean_diagonal('by-id.large', 6, [(5, 0, 3), (2,), (4, 1, 0, 5), (), (3, 2, 1)], thorough_only=True)
+_mean_diagonal('cf4.bs4', 4, [tuple(range(4))] * 4, thorough_only=True)
+
+
+@contract('C16', '_calculate_mean_diagonal.default-samples', [SCALER + '._calculate_mean_diagonal', LT + ':LhCfPoseSample.__init__'],
+          float_mode='R',
+          clause='the estimated sensor diagonal is the mean over the base stations seen IN THAT SAMPLE: samples created without angles '
+                 'and filled in afterwards do not share what they see (a sample that was never filled in contributes nothing)',
+          bounded='two base stations, two samples: the first sees base station 3 (filled in after construction), the second nothing')
+def mean_diagonal_default_samples(c):
+    helpers(c)
+    bs_poses, cf_poses = system(c, 2, 2)
+    c.floats('dists', 2, kind='tuple')
+    vec = tuple(c.ext('v_%d' % j) for j in range(4))
+    c.let('VEC', vec)
+    s0 = c.new(LT + ':LhCfPoseSample')
+    s1 = c.new(LT + ':LhCfPoseSample', 1.0)
+    c.let('s0', s0), c.let('s1', s1)
+    c.call((c.getfield(s0, 'angles_calibrated'), 'update'), c.dict([(BS_IDS[1], vec)]))
+    c.ensure('samples-do-not-share-their-angles', 'raised is None and len(s0.angles_calibrated) == 1 and len(s1.angles_calibrated) == 0 '
+                                                  'and s0.angles_calibrated is not s1.angles_calibrated')
+    c.patch(SCALER + '.calc_intersection_distance',
+            c.ext('dist', returns={'()': seq_returns([c.snapshot('_d', 'LT.np.float64(dists[%d])' % i) for i in range(2)])}))
+    c.reset_trace()
+    c.call((c.cls(SCALER), '_calculate_mean_diagonal'), bs_poses, cf_poses, c.list([s0, s1]))
+    c.ensure('no-exception', 'raised is None')
+    c.ensure('only-what-the-first-sample-sees', 'len(trace) == 2 and all(e[0] == "dist" and e[1][2] is BS[1] and e[1][3] is CF[0] for e in trace)')
+    c.ensure('mean-of-the-distances', 'result * 2 == dists[0] + dists[1]')
 
 
 # ------------------------------------------------------------------------- intersection geometry: homogeneity
@@ -359,6 +575,67 @@ def intersection_homogeneous(c):
     c.ensure('no-exception-scaled', 'raised is None')
     for i in range(3):
         c.ensure('component-%d-scaled' % i, 'result[%d] == s * p1[%d]' % (i, i))
+
+
+def ray_inputs(c, names=('vector',)):
+    """base-station pose bs, Crazyflie pose cf and one external LighthouseBsVector stub per name with a symbolic `cart`, none of
+    the rays parallel to the deck plane (otherwise numpy divides by zero: inf/nan, no intersection)"""
+    bs, cf = pose(c, 'bs'), pose(c, 'cf')
+    vs = []
+    for n in names:
+        c.floats(n + '_cart', 3, kind='tuple')
+        vs.append(c.ext(n, attrs={'cart': c.snapshot(n + '_cart_arr', 'LT.np.array(%s_cart)' % n)}))
+        c.require('LT.np.dot(LT.np.dot(bs.rot_matrix, %s_cart), LT.np.dot(cf.rot_matrix, (0.0, 0.0, 1.0))) != 0' % n)
+    return bs, cf, vs
+
+
+@contract('C16', 'calc_intersection_point.on-the-ray-in-the-deck-plane', [SCALER + '.calc_intersection_point'], float_mode='R',
+          clause='the sensor diagonal that scale_diagonals makes correct is measured between true ray/deck intersections: the point '
+                 'returned lies on the line through the base-station position along bs.R . cart (cross product with the direction '
+                 'is zero) and in the plane through the Crazyflie position whose normal is the Crazyflie Z axis cf.R . (0,0,1); '
+                 'neither pose is modified',
+          ob_timeout_ms=60000)
+def intersection_true(c):
+    helpers(c)
+    bs, cf, (vector,) = ray_inputs(c)
+    remember(c, ['bs', 'cf'])
+    c.call((c.cls(SCALER), 'calc_intersection_point'), vector, bs, cf)
+    c.ensure('no-exception', 'raised is None')
+    c.snapshot('P', 'result.tolist()')
+    c.snapshot('n', '[cf_R[r][2] for r in range(3)]')                     # cf.R . (0, 0, 1)
+    c.snapshot('d', 'apply(bs_R, (0.0, 0.0, 0.0), vector_cart)')        # bs.R . cart
+    c.snapshot('w', '[P[i] - bs_t[i] for i in range(3)]')
+    c.ensure('three-coordinates', 'len(P) == 3')
+    c.ensure('in-the-deck-plane', 'abs(sum((P[i] - cf_t[i]) * n[i] for i in range(3))) <= 1e-9')
+    c.ensure('on-the-ray-x', 'abs(w[1] * d[2] - w[2] * d[1]) <= 1e-9')
+    c.ensure('on-the-ray-y', 'abs(w[2] * d[0] - w[0] * d[2]) <= 1e-9')
+    c.ensure('on-the-ray-z', 'abs(w[0] * d[1] - w[1] * d[0]) <= 1e-9')
+    check_pose_frame(c, ['bs', 'cf'])
+    c.ensure('ray-direction-not-modified', 'vector_cart_arr.tolist() == list(vector_cart)')
+
+
+@contract('C16', 'calc_intersection_distance', [SCALER + '.calc_intersection_distance', SCALER + '.calc_intersection_point'],
+          float_mode='R',
+          clause='the estimated sensor diagonal is the (non-negative) distance between the deck intersections of the TWO rays given, '
+                 'both taken for the same base-station and Crazyflie pose, whichever ray is given first; neither pose is modified (with '
+                 'calc_intersection_point.homogeneous: scaling both positions by s scales this distance by |s|)',
+          ob_timeout_ms=60000)
+def intersection_distance(c):
+    helpers(c)
+    bs, cf, (v1, v2) = ray_inputs(c, ('v1', 'v2'))
+    c.call((c.cls(SCALER), 'calc_intersection_point'), v1, bs, cf)
+    c.snapshot('p1', 'result.tolist()')
+    c.call((c.cls(SCALER), 'calc_intersection_point'), v2, bs, cf)
+    c.snapshot('p2', 'result.tolist()')
+    remember(c, ['bs', 'cf'])
+    c.call((c.cls(SCALER), 'calc_intersection_distance'), v1, v2, bs, cf)
+    c.ensure('no-exception', 'raised is None')
+    c.ensure('non-negative', 'result >= 0')
+    # exact in the reals (mode R); with a tolerance the solver needs minutes for the same fact
+    c.ensure('distance-between-the-two-intersections', 'result * result == sumsq([p1[i] - p2[i] for i in range(3)])')
+    check_pose_frame(c, ['bs', 'cf'])
+    c.call((c.cls(SCALER), 'calc_intersection_distance'), v2, v1, bs, cf)
+    c.ensure('symmetric', 'raised is None and result >= 0 and result * result == sumsq([p1[i] - p2[i] for i in range(3)])')
 
 
 # ------------------------------------------------------------------------- deck constants
@@ -394,14 +671,14 @@ def bounded_inputs(c, names):
         c.require('all(-10 <= x <= 10 for x in %s)' % n)
 
 
-def _align(n_bs, n_x, n_p):
+def _align(n_bs, n_x, n_p, **opts):
     @contract('C16', 'align.one_transformation.bs%d.x%d.p%d' % (n_bs, n_x, n_p),
               [ALIGNER + '.align', ALIGNER + '._de_flip_transformation', POSE + '.rotate_translate_pose',
                POSE + '.rotate_translate'], float_mode='R',
               clause=CL_ALIGN + ' [the ONE transformation that is returned is applied to every base station: out.R == T.R . in.R, '
                                 'out.t == T.R . in.t + T.t; _find_transformation (least squares) under a stub returning an '
                                 'arbitrary pose]',
-              bounded='%d base station(s), %d x-axis and %d plane sample(s)' % (n_bs, n_x, n_p))
+              bounded='%d base station(s), %d x-axis and %d plane sample(s)' % (n_bs, n_x, n_p), **opts)
     def k(c):
         helpers(c)
         bs_poses, _ = system(c, n_bs, 0)
@@ -437,6 +714,112 @@ def _align(n_bs, n_x, n_p):
 
 for _s in ((1, 1, 1), (2, 1, 1), (2, 2, 2), (3, 1, 2)):
     _align(*_s)
+for _s in ((4, 3, 4), (8, 2, 3), (16, 4, 4)):
+    _align(*_s, thorough_only=True)
+
+
+@contract('C16', 'align.twice', [ALIGNER + '.align', ALIGNER + '._de_flip_transformation', POSE + '.rotate_translate_pose',
+                                  POSE + '.rotate_translate'], float_mode='R',
+          clause=CL_ALIGN + ' [history: a second alignment of the same system (the solver now answering differently) is decided by the '
+                            'second answer alone - nothing is remembered from the first - and leaves the first result as it was]',
+          bounded='two base stations, one x-axis and one plane sample, two consecutive calls with the same arguments')
+def align_twice(c):
+    helpers(c)
+    bs_poses, _ = system(c, 2, 0)
+    raw1, raw2 = pose(c, 'raw1'), pose(c, 'raw2')
+    c.floats('origin', 3, kind='tuple')
+    c.floats('probe', 3, kind='tuple')
+    x_axis, xy_plane = points(c, 'x_axis', 1), points(c, 'xy_plane', 1)
+    for i in range(2):
+        bounded_inputs(c, ['bs%d_t' % i] + ['bs%d_R[%d]' % (i, r) for r in range(3)])
+    bounded_inputs(c, ['raw1_t', 'raw2_t', 'origin', 'probe', 'x_axis_pts[0]'] + ['raw%d_R[%d]' % (k, r) for k in (1, 2) for r in range(3)])
+    c.patch(ALIGNER + '._find_transformation', c.ext('find', returns={'()': seq_returns([raw1, raw2])}))
+    names = ['bs0', 'bs1', 'raw1', 'raw2']
+    remember(c, names)
+    c.call((c.cls(ALIGNER), 'align'), c.get('origin'), x_axis, xy_plane, bs_poses)
+    c.ensure('no-exception-first', 'raised is None')
+    c.let('first', c.get('result'))
+    c.snapshot('first_values', '([first[0][k].translation.tolist() for k in IDS], [first[0][k].rot_matrix.tolist() for k in IDS], '
+                               'first[1].translation.tolist(), first[1].rot_matrix.tolist())')
+    c.call((c.cls(ALIGNER), 'align'), c.get('origin'), x_axis, xy_plane, bs_poses)
+    c.ensure('no-exception', 'raised is None')
+    c.ensure('least-squares-consulted-for-each-call', 'len(sent("find")) == 2')
+    c.snapshot('TR', 'result[1].rot_matrix.tolist()')
+    c.snapshot('Tt', 'result[1].translation.tolist()')
+    # the second transformation is the de-flipped SECOND answer
+    c.snapshot('sx', '-1.0 if apply(raw2_R, raw2_t, x_axis_pts[0])[0] < 0 else 1.0')
+    c.snapshot('sz', '-1.0 if apply(raw2_R, raw2_t, bs0_t)[2] < 0 else 1.0')
+    c.snapshot('S', '(sx, sx * sz, sz)')
+    c.snapshot('rp', 'apply(raw2_R, raw2_t, probe)')
+    c.snapshot('fp', 'apply(TR, Tt, probe)')
+    for i in range(3):
+        c.ensure('second-transformation-from-the-second-answer-%s' % 'xyz'[i], 'abs(fp[%d] - S[%d] * rp[%d]) <= 1e-9' % (i, i, i))
+    for i in range(2):
+        c.snapshot('out', 'result[0][IDS[%d]]' % i)
+        c.ensure('bs%d-translation-transformed' % i, 'near(out.translation.tolist(), apply(TR, Tt, bs%d_t))' % i)
+        c.ensure('bs%d-rotation-transformed' % i, 'near2(out.rot_matrix.tolist(), matmul(TR, bs%d_R))' % i)
+    c.ensure('first-result-not-touched', '([first[0][k].translation.tolist() for k in IDS], [first[0][k].rot_matrix.tolist() for k in IDS], '
+                                         'first[1].translation.tolist(), first[1].rot_matrix.tolist()) == first_values')
+    c.ensure('input-containers-not-modified', 'list(bs_poses.items()) == list(zip(IDS, BS)) and '
+                                              'list(x_axis) == list(x_axis_pts) and list(xy_plane) == list(xy_plane_pts)')
+    check_pose_frame(c, names)
+
+
+def array_points(c, name, n):
+    """like points(), but every sample is a numpy array (what position estimates usually are): name = list of the arrays,
+    name_arrs = tuple of the same array objects, name_pts = their initial contents"""
+    pts = [c.floats('%s%d' % (name, i), 3, kind='tuple') for i in range(n)]
+    arrs = [c.snapshot('%s%d_arr' % (name, i), 'LT.np.array(%s%d)' % (name, i)) for i in range(n)]
+    c.let(name, c.list(arrs))
+    c.let(name + '_arrs', tuple(arrs))
+    c.let(name + '_pts', tuple(pts))
+    return c.get(name)
+
+
+@contract('C16', 'align.array-samples-not-modified',
+          [ALIGNER + '.align', ALIGNER + '._de_flip_transformation', POSE + '.rotate_translate_pose', POSE + '.rotate_translate'],
+          float_mode='R',
+          clause=CL_ALIGN + ' [the reference samples given as numpy arrays: the caller\'s arrays are neither replaced in the lists nor '
+                            'written, and the answer is the same as for plain tuples; _find_transformation under a stub returning an '
+                            'arbitrary pose]',
+          bounded='two base stations, two x-axis and two plane samples')
+def align_arrays(c):
+    helpers(c)
+    bs_poses, _ = system(c, 2, 0)
+    raw = pose(c, 'raw')
+    c.floats('origin', 3, kind='tuple')
+    c.snapshot('origin_arr', 'LT.np.array(origin)')
+    x_axis, xy_plane = array_points(c, 'x_axis', 2), array_points(c, 'xy_plane', 2)
+    for i in range(2):
+        bounded_inputs(c, ['bs%d_t' % i] + ['bs%d_R[%d]' % (i, r) for r in range(3)])
+    bounded_inputs(c, ['raw_t', 'origin'] + ['raw_R[%d]' % r for r in range(3)] + ['x_axis_pts[%d]' % i for i in range(2)])
+    c.patch(ALIGNER + '._find_transformation', c.ext('find', returns={'()': raw}))
+    names = ['bs0', 'bs1', 'raw']
+    remember(c, names)
+    c.call((c.cls(ALIGNER), 'align'), c.get('origin_arr'), x_axis, xy_plane, bs_poses)
+    c.ensure('no-exception', 'raised is None')
+    c.ensure('least-squares-given-the-callers-samples',
+             'len(sent("find")) == 1 and sent("find")[0][1][0] is origin_arr and sent("find")[0][1][1] is x_axis and sent("find")[0][1][2] is xy_plane')
+    c.snapshot('TR', 'result[1].rot_matrix.tolist()')
+    c.snapshot('Tt', 'result[1].translation.tolist()')
+    c.snapshot('xmean', '[(x_axis_pts[0][k] + x_axis_pts[1][k]) / 2 for k in range(3)]')
+    c.snapshot('sx', '-1.0 if apply(raw_R, raw_t, xmean)[0] < 0 else 1.0')
+    c.snapshot('sz', '-1.0 if apply(raw_R, raw_t, bs0_t)[2] < 0 else 1.0')
+    c.snapshot('S', '(sx, sx * sz, sz)')
+    c.snapshot('rp', 'apply(raw_R, raw_t, origin)')
+    c.snapshot('fp', 'apply(TR, Tt, origin)')
+    for i in range(3):
+        c.ensure('de-flipped-answer-%s' % 'xyz'[i], 'abs(fp[%d] - S[%d] * rp[%d]) <= 1e-9' % (i, i, i))
+    for i in range(2):
+        c.snapshot('out', 'result[0][IDS[%d]]' % i)
+        c.ensure('bs%d-translation-transformed' % i, 'near(out.translation.tolist(), apply(TR, Tt, bs%d_t))' % i)
+        c.ensure('bs%d-rotation-transformed' % i, 'near2(out.rot_matrix.tolist(), matmul(TR, bs%d_R))' % i)
+    c.ensure('sample-lists-not-modified', 'len(x_axis) == 2 and len(xy_plane) == 2 and all(x_axis[i] is x_axis_arrs[i] and '
+                                          'xy_plane[i] is xy_plane_arrs[i] for i in range(2))')
+    c.ensure('sample-arrays-not-written', 'origin_arr.tolist() == list(origin) and all(x_axis_arrs[i].tolist() == list(x_axis_pts[i]) and '
+                                          'xy_plane_arrs[i].tolist() == list(xy_plane_pts[i]) for i in range(2))')
+    c.ensure('base-station-dictionary-not-modified', 'list(bs_poses.items()) == list(zip(IDS, BS))')
+    check_pose_frame(c, names)
 
 
 # ------------------------------------------------------------------------- rigidity of one transformation
@@ -472,14 +855,14 @@ def isometry(c):
 
 # ------------------------------------------------------------------------- de-flip
 
-def _de_flip(n_bs, n_x):
+def _de_flip(n_bs, n_x, **opts):
     @contract('C16', '_de_flip_transformation.bs%d.x%d' % (n_bs, n_x),
               [ALIGNER + '._de_flip_transformation', POSE + '.rotate_translate_pose', POSE + '.rotate_translate',
                POSE + '.from_rot_vec'], float_mode='R',
               clause=CL_ALIGN + ' [de-flip: result == S . raw with S = diag(sx, sx*sz, sz), sx = -1 iff raw maps the mean x-axis '
                                 'sample to X < 0, sz = -1 iff raw maps the first base station to Z < 0; applied after raw, so the '
                                 'origin / X axis / plane Z=0 of the raw solution are kept and the signs are corrected]',
-              bounded='%d base station(s), %d x-axis sample(s)' % (n_bs, n_x))
+              bounded='%d base station(s), %d x-axis sample(s)' % (n_bs, n_x), **opts)
     def k(c):
         helpers(c)
         bs_poses, _ = system(c, n_bs, 0)
@@ -520,6 +903,162 @@ def _de_flip(n_bs, n_x):
 
 for _s in ((1, 1), (2, 2), (3, 3)):
     _de_flip(*_s)
+for _s in ((4, 5), (16, 8)):
+    _de_flip(*_s, thorough_only=True)
+
+
+# ------------------------------------------------------------------------- what the least-squares solver minimises
+
+CL_RESIDUAL = ('the transformation maps the origin sample to (0,0,0), x-axis samples onto the X axis and plane samples into Z=0 '
+               '[what "exact" means for the solver: the sum of squares of the residual handed to it is |T(origin)|^2 + sum over '
+               'x-axis samples of T(x)_y^2 + T(x)_z^2 + sum over plane samples of T(p)_z^2, T the pose of the parameter vector; '
+               'it is zero iff T maps the samples where the property wants them]')
+
+
+def objective(T_R, T_t, n_x, n_p):
+    """spec text of the least-squares objective of the transformation (T_R, T_t) on origin / x_axis_pts / xy_plane_pts"""
+    terms = ['sumsq(apply(%s, %s, origin))' % (T_R, T_t)]
+    for i in range(n_x):
+        terms.append('sq(apply(%s, %s, x_axis_pts[%d])[1]) + sq(apply(%s, %s, x_axis_pts[%d])[2])' % (T_R, T_t, i, T_R, T_t, i))
+    for i in range(n_p):
+        terms.append('sq(apply(%s, %s, xy_plane_pts[%d])[2])' % (T_R, T_t, i))
+    return ' + '.join(terms)
+
+
+def _residual(n_x, n_p, **opts):
+    @contract('C16', '_calc_residual.objective.x%d.p%d' % (n_x, n_p), [ALIGNER + '._calc_residual', POSE + '.rotate_translate'],
+              float_mode='R', clause=CL_RESIDUAL + ' [_Pose_from_params under a stub returning an arbitrary pose T]',
+              bounded='%d x-axis and %d plane sample(s)' % (n_x, n_p), **opts)
+    def k(c):
+        helpers(c)
+        c.snapshot('sq', 'lambda v: v * v')
+        T = pose(c, 'T')
+        c.floats('origin', 3, kind='tuple')
+        x_axis, xy_plane = points(c, 'x_axis', n_x), points(c, 'xy_plane', n_p)
+        c.floats('params', 6, kind='tuple')
+        params = c.snapshot('params_arr', 'LT.np.array(params)')
+        bounded_inputs(c, ['T_t', 'origin', 'params'] + ['T_R[%d]' % r for r in range(3)] + ['x_axis_pts[%d]' % i for i in range(n_x)] +
+                       ['xy_plane_pts[%d]' % i for i in range(n_p)])
+        c.patch(ALIGNER + '._Pose_from_params', c.ext('pose_from_params', returns={'()': T}))
+        remember(c, ['T'])
+        c.call((c.cls(ALIGNER), '_calc_residual'), params, c.get('origin'), x_axis, xy_plane)
+        c.ensure('no-exception', 'raised is None')
+        c.ensure('the-pose-of-the-parameter-vector-is-judged',
+                 'len(trace) == 1 and trace[0][0] == "pose_from_params" and len(trace[0][1]) == 1 and trace[0][1][0] is params_arr '
+                 'and len(trace[0][2]) == 0')
+        c.snapshot('res', 'LT.np.ravel(result).tolist()')
+        c.ensure('sum-of-squares-is-the-alignment-error', 'abs(sum(sq(r) for r in res) - (%s)) <= 1e-9' % objective('T_R', 'T_t', n_x, n_p))
+        c.ensure('inputs-not-modified', 'list(x_axis) == list(x_axis_pts) and list(xy_plane) == list(xy_plane_pts) and '
+                                        'params_arr.tolist() == list(params)')
+        check_pose_frame(c, ['T'])
+    return k
+
+
+for _s in ((1, 1), (2, 1), (1, 2), (3, 3)):
+    _residual(*_s)
+
+
+@contract('C16', '_calc_residual.array-samples', [ALIGNER + '._calc_residual', POSE + '.rotate_translate'], float_mode='R',
+          clause=CL_RESIDUAL + ' [samples and origin given as numpy arrays: same objective, the arrays are not written - the solver '
+                               'evaluates the residual many times on the same samples; _Pose_from_params under a stub returning an '
+                               'arbitrary pose T]',
+          bounded='two x-axis and two plane samples, two consecutive evaluations')
+def residual_arrays(c):
+    helpers(c)
+    c.snapshot('sq', 'lambda v: v * v')
+    T, T2 = pose(c, 'T'), pose(c, 'T2')
+    c.floats('origin', 3, kind='tuple')
+    c.snapshot('origin_arr', 'LT.np.array(origin)')
+    x_axis, xy_plane = array_points(c, 'x_axis', 2), array_points(c, 'xy_plane', 2)
+    c.floats('params', 6, kind='tuple')
+    params = c.snapshot('params_arr', 'LT.np.array(params)')
+    bounded_inputs(c, ['T_t', 'T2_t', 'origin', 'params'] + ['T_R[%d]' % r for r in range(3)] + ['T2_R[%d]' % r for r in range(3)] +
+                   ['x_axis_pts[%d]' % i for i in range(2)] + ['xy_plane_pts[%d]' % i for i in range(2)])
+    c.patch(ALIGNER + '._Pose_from_params', c.ext('pose_from_params', returns={'()': seq_returns([T, T2])}))
+    c.call((c.cls(ALIGNER), '_calc_residual'), params, c.get('origin_arr'), x_axis, xy_plane)
+    c.ensure('no-exception', 'raised is None')
+    c.snapshot('res', 'LT.np.ravel(result).tolist()')
+    c.ensure('sum-of-squares-is-the-alignment-error', 'abs(sum(sq(r) for r in res) - (%s)) <= 1e-9' % objective('T_R', 'T_t', 2, 2))
+    c.let('first_result', c.get('result'))
+    c.call((c.cls(ALIGNER), '_calc_residual'), params, c.get('origin_arr'), x_axis, xy_plane)
+    c.ensure('no-exception-second-evaluation', 'raised is None')
+    c.snapshot('res2', 'LT.np.ravel(result).tolist()')
+    c.ensure('second-evaluation-judges-the-second-pose-on-the-same-samples',
+             'abs(sum(sq(r) for r in res2) - (%s)) <= 1e-9' % objective('T2_R', 'T2_t', 2, 2))
+    c.ensure('first-residual-not-overwritten', 'result is not first_result and LT.np.ravel(first_result).tolist() == res')
+    c.ensure('sample-lists-not-modified', 'len(x_axis) == 2 and len(xy_plane) == 2 and all(x_axis[i] is x_axis_arrs[i] and '
+                                          'xy_plane[i] is xy_plane_arrs[i] for i in range(2))')
+    c.ensure('sample-arrays-not-written', 'origin_arr.tolist() == list(origin) and params_arr.tolist() == list(params) and '
+                                          'all(x_axis_arrs[i].tolist() == list(x_axis_pts[i]) and '
+                                          'xy_plane_arrs[i].tolist() == list(xy_plane_pts[i]) for i in range(2))')
+_residual(5, 6, thorough_only=True)
+
+
+# ------------------------------------------------------------------------- _find_transformation: the solver's answer is what is returned
+
+def _find(n_x, n_p, **opts):
+    @contract('C16', '_find_transformation.x%d.p%d' % (n_x, n_p),
+              [ALIGNER + '._find_transformation', ALIGNER + '._calc_residual', ALIGNER + '._Pose_from_params', POSE + '.from_rot_vec',
+               POSE + '.rotate_translate'], float_mode='R',
+              clause=CL_RESIDUAL + ' [the pose returned is the pose of the solver\'s answer: the residual the solver is shown for its '
+                                   'answer, on the samples it is given, is the alignment error of the RETURNED pose on the CALLER\'s '
+                                   'samples - so a converged solver means an exact alignment; the search starts from the zero parameter '
+                                   'vector (no rotation, no translation: "initial misalignment"); scipy.optimize.least_squares under a stub '
+                                   'that evaluates the function it is given at an arbitrary answer; scipy Rotation.from_rotvec under a stub '
+                                   'returning a matrix that is an arbitrary injective function of the rotation vector]',
+              bounded='%d x-axis and %d plane sample(s)' % (n_x, n_p), **opts)
+    def k(c):
+        helpers(c)
+        c.snapshot('sq', 'lambda v: v * v')
+        c.let('Rm', mat(c, 'Rm'))
+        c.floats('origin', 3, kind='tuple')
+        x_axis, xy_plane = points(c, 'x_axis', n_x), points(c, 'xy_plane', n_p)
+        c.floats('answer', 6, kind='tuple')
+        c.snapshot('answer_arr', 'LT.np.array(answer)')
+        bounded_inputs(c, ['origin', 'answer'] + ['Rm[%d]' % r for r in range(3)] + ['x_axis_pts[%d]' % i for i in range(n_x)] +
+                       ['xy_plane_pts[%d]' % i for i in range(n_p)])
+
+        def from_rotvec(_i, args, kwargs):
+            # stand-in for scipy: the matrix is Rm with the rotation vector added to its first row (arbitrary, injective)
+            c.let('_v', args[0])
+            m = c.snapshot('_m', '[[Rm[0][j] + _v[j] for j in range(3)], list(Rm[1]), list(Rm[2])]')
+            return c.ext('rotation', returns={'as_matrix': m})
+
+        consulted = []
+
+        def least_squares(_i, args, kwargs):
+            consulted.append(1)
+            c.let('solver_x0', args[1] if len(args) > 1 else kwargs.get('x0'))
+            c.let('seen', c.invoke(args[0] if args else kwargs.get('fun'), c.get('answer_arr'), *tuple(kwargs.get('args', ()))))
+            return c.ext('solution', attrs={'x': c.get('answer_arr')})
+        c.patch(LT + ':Rotation', c.ext('Rotation', returns={'from_rotvec': from_rotvec}))
+        # the solver is reached as scipy.optimize.least_squares; other import styles of the same function are stubbed alike
+        names = module_names(c, AL)
+        if 'scipy' in names:
+            c.patch(AL + ':scipy', c.ext('scipy', returns={'optimize.least_squares': least_squares}))
+        elif 'optimize' in names:
+            c.patch(AL + ':optimize', c.ext('optimize', returns={'least_squares': least_squares}))
+        else:
+            c.patch(AL + ':least_squares', c.ext('least_squares', returns={'()': least_squares}))
+        c.call((c.cls(ALIGNER), '_find_transformation'), c.get('origin'), x_axis, xy_plane)
+        c.let('n_consulted', len(consulted))
+        c.ensure('no-exception', 'raised is None')
+        c.ensure('solver-consulted-once', 'n_consulted == 1')
+        c.ensure('search-starts-from-the-zero-parameter-vector', 'len(solver_x0.tolist()) == 6 and all(v == 0 for v in solver_x0.tolist())')
+        c.ensure('result-is-a-pose', 'typename(result) == "Pose"')
+        c.snapshot('FR', 'result.rot_matrix.tolist()')
+        c.snapshot('Ft', 'result.translation.tolist()')
+        c.snapshot('res', 'LT.np.ravel(seen).tolist()')
+        c.ensure('residual-shown-for-the-answer-is-the-alignment-error-of-the-returned-pose',
+                 'abs(sum(sq(r) for r in res) - (%s)) <= 1e-9' % objective('FR', 'Ft', n_x, n_p))
+        c.ensure('inputs-not-modified', 'list(x_axis) == list(x_axis_pts) and list(xy_plane) == list(xy_plane_pts) and '
+                                        'answer_arr.tolist() == list(answer)')
+    return k
+
+
+for _s in ((1, 1), (2, 1), (1, 2)):
+    _find(*_s)
+_find(3, 3, thorough_only=True)
 
 
 # ------------------------------------------------------------------------- align end to end: BOUNDED ONLY (never counted as proved)
